@@ -133,6 +133,15 @@ class ClassInfo(object):
         return "<Class %s>" % self.fullname
 
 
+# module-level constants of the pinned tree: rules may refer to them by name, so they are never inlined
+KNOWN_CONSTANT_NAMES = frozenset(
+    ["cycle_var_prefix", "NODE_TRUE", "NODE_FALSE", "recdb_key", "_from_math_1", "LINE_COMMENT", "BLOCK_COMMENT_START", "BLOCK_COMMENT_END", "NEWLINE",
+     "SPECIAL_PAREN_OPEN", "SPECIAL_PAREN_CLOSE", "SPECIAL_END", "SPECIAL_COMMA", "SPECIAL_BRACK_OPEN", "SPECIAL_BRACK_CLOSE", "SPECIAL_VARIABLE",
+     "SPECIAL_FLOAT", "SPECIAL_INTEGER", "SPECIAL_PIPE", "SPECIAL_STRING", "SPECIAL_ARGLIST", "SPECIAL_SHARP_OPEN", "SPECIAL_SHARP_CLOSE",
+     "SPECIAL_HEX_INTEGER", "boolean_values", "problog_default_task", "version"]
+)
+
+
 class Module(object):
     def __init__(self, name, path, relpath, src, is_pkg):
         self.name = name
@@ -141,6 +150,8 @@ class Module(object):
         self.src = src
         self.is_pkg = is_pkg
         self.tree = ast.parse(src, filename=path)
+        self.inlined_constants = {}
+        self._inline_new_constants()
         self.lines = src.splitlines()
         self.imports = {}  # local name -> (modname, objname or None)
         self.import_nodes = []  # (node, resolved absolute module name, level)
@@ -219,6 +230,54 @@ class Module(object):
         for node in ast.walk(self.tree):
             if isinstance(node, (ast.Import, ast.ImportFrom)):
                 bind(node, False)
+
+    def _inline_new_constants(self):
+        """Named constants the rules do not know (not in KNOWN_CONSTANT_NAMES: the module-level constants of the pinned tree, which rules may refer
+        to by name) are read as their literal: a behaviour-preserving 'name the magic value' refactoring must look like the code it replaced.
+        Uses are replaced in place (positions kept) unless the name is shadowed in an enclosing function/class/lambda/comprehension."""
+        env = {k: v for k, v in self.module_constants().items() if k not in KNOWN_CONSTANT_NAMES and isinstance(v, (int, float, str, bool, type(None)))}
+        if not env:
+            return
+        self.inlined_constants = env
+
+        def stored_names(node):
+            out = set()
+            for n in ast.walk(node):
+                if isinstance(n, ast.Name) and isinstance(n.ctx, (ast.Store, ast.Del)):
+                    out.add(n.id)
+                elif isinstance(n, ast.arg):
+                    out.add(n.arg)
+                elif isinstance(n, (ast.Global, ast.Nonlocal)):
+                    out.update(n.names)
+            return out
+
+        def rewrite(node, shadow):
+            for field, value in ast.iter_fields(node):
+                if isinstance(value, list):
+                    for i, ch in enumerate(value):
+                        if isinstance(ch, ast.AST):
+                            value[i] = one(ch, shadow)
+                elif isinstance(value, ast.AST):
+                    setattr(node, field, one(value, shadow))
+
+        def one(ch, shadow):
+            if isinstance(ch, ast.Name) and isinstance(ch.ctx, ast.Load) and ch.id in env and ch.id not in shadow:
+                return ast.copy_location(ast.Constant(value=env[ch.id]), ch)
+            if isinstance(ch, (ast.FunctionDef, ast.AsyncFunctionDef, ast.Lambda, ast.ClassDef, ast.ListComp, ast.SetComp, ast.DictComp, ast.GeneratorExp)):
+                rewrite(ch, shadow | stored_names(ch))
+            else:
+                rewrite(ch, shadow)
+            return ch
+
+        for st in self.tree.body:
+            if isinstance(st, (ast.FunctionDef, ast.AsyncFunctionDef, ast.ClassDef)):
+                one(st, set())
+            elif not isinstance(st, (ast.Assign, ast.AnnAssign, ast.AugAssign)):
+                rewrite(st, set())
+            else:
+                # module-level statements: uses on the right-hand side of other assignments
+                if isinstance(st, ast.Assign) and not (len(st.targets) == 1 and isinstance(st.targets[0], ast.Name) and st.targets[0].id in env):
+                    st.value = one(st.value, set())
 
     def module_constants(self):
         """Module-level names bound exactly once (at top level, to a foldable constant) and never rebound through `global`:
